@@ -1,7 +1,7 @@
 (* Correspondence of the L3 monitor with recorded runs of the real client (M-sched): every
    recorded sequence of synchronisation events must be accepted by the monitor; and the
    API-level observations of the run are judged directly (C10 C11 C12). *)
-From MQ Require Export Sync.
+From MQ Require Export Sync SyncProofs.
 
 (* API call observation: goroutine, kind (0 ReadSlices, 1 Publish-like, 2 persisted publish, 3 Close,
    4 Disconnect), error class bits, and whether the call started after some Close/Disconnect returned *)
@@ -12,6 +12,9 @@ Inductive synccase := SyncCase (tr : list obs) (calls : list apicall).
 Definition sync_agree (c : synccase) : bool :=
   match c with SyncCase tr _ =>
     match first_reject init_state tr 0 with None => true | Some _ => false end
+    (* the hypothesis of the L3 theorems, checked on the recorded trace: one ReadSlices goroutine,
+       context observed monotonically by it, done closed once per connect *)
+    && faithful_tr tr
   end.
 
 Definition hasbit (e b : N) : bool := negb (N.land e b =? 0).
